@@ -16,6 +16,7 @@ import (
 	"math/big"
 	"os"
 	"path/filepath"
+	"strings"
 	"testing"
 
 	"github.com/usnistgov/dastard/internal/vexp"
@@ -466,6 +467,49 @@ func v13Analyze(x *vexp.X, q *v13Run) vexp.Result {
 	return res
 }
 
+// v13Batch: several records through one processor, either in one AnalyzeData call or in successive calls; every
+// record is checked only after the last call (so a result that is overwritten by a later record shows).
+func v13Batch(x *vexp.X, qs []*v13Run, oneCall bool) vexp.Result {
+	q0 := qs[0]
+	dsp := NewDataStreamProcessor(3, nil, q0.sh.npre, q0.sh.nsamp)
+	loaded := q0.m.nb() > 0
+	if loaded {
+		P, B := q0.m.matrices(q0.sh.nsamp)
+		if err := dsp.SetProjectorsBasis(P, B, q0.m.name); err != nil {
+			return vexp.Result{Violation: fmt.Sprintf("%v: SetProjectorsBasis rejected matrices of compatible shape: %v", q0, err), Class: "c13-compatible-rejected"}
+		}
+	}
+	recs := make([]*DataRecord, len(qs))
+	for i, q := range qs {
+		recs[i] = v13NewRecord(q)
+	}
+	if oneCall {
+		x.Steps++
+		dsp.AnalyzeData(recs)
+	} else {
+		for i := range recs {
+			x.Steps++
+			dsp.AnalyzeData(recs[i : i+1])
+		}
+	}
+	res := vexp.Result{}
+	var outs []string
+	for i, q := range qs {
+		viol, out, st := v13CheckRecord(x, q, recs[i], loaded)
+		if !st.constant {
+			res.Nontrivial = true
+		}
+		outs = append(outs, hex.EncodeToString(out))
+		if viol != nil {
+			res.Violation = fmt.Sprintf("record %d of %d (one AnalyzeData call: %v): %s", i+1, len(qs), oneCall, viol.what)
+			res.Class = "c13-batch:" + viol.class
+			return res
+		}
+	}
+	res.Outcome = strings.Join(outs, "/")
+	return res
+}
+
 // ---------------------------------------------------------------------------------------------
 // shape family: every (projector dims, basis dims) pair around the compatible one, on a processor with
 // and without a previously loaded model.
@@ -641,7 +685,7 @@ func TestVerifC13(t *testing.T) {
 	if thorough {
 		bound += " (3,4): every 2-basis projector matrix (5^8) with a fixed basis and every 2-basis basis matrix with fixed projectors on 6 records;"
 	}
-	bound += " all projector/basis shape pairs within +-1 of compatible (and empty matrices) with and without a previous model; (3,4) records x 4 models through the real OFF writer"
+	bound += " all projector/basis shape pairs within +-1 of compatible (and empty matrices) with and without a previous model; (3,4) records x 4 models through the real OFF writer; every pair (thorough: also every triple over {0,1,ffff}) of (3,4) records over a 3-value (thorough 4-value) alphabet x {no model, 4 models} through one processor in one AnalyzeData call and in successive calls, all records checked after the last call"
 	r.SetBound(bound)
 
 	// family A: records x pattern models
@@ -764,6 +808,50 @@ func TestVerifC13(t *testing.T) {
 	if len(offModels) != 4 {
 		panic(fmt.Sprintf("OFF model selection found %d models", len(offModels)))
 	}
+	// family F: batches of records through one processor
+	batchAlpha := []RawType{0, 1, 0xffff}
+	if thorough {
+		batchAlpha = v13AlphabetSmall
+	}
+	nrec := v13Pow(len(batchAlpha), 4)
+	mkData := func(i int) []RawType {
+		d := make([]RawType, 4)
+		for k := range d {
+			d[k] = batchAlpha[i%len(batchAlpha)]
+			i /= len(batchAlpha)
+		}
+		return d
+	}
+	batchModels := append([]*v13Model{{name: "none"}}, offModels...)
+	for _, signed := range []bool{false, true} {
+		signed := signed
+		for mi, m := range batchModels {
+			m := m
+			for _, oneCall := range []bool{true, false} {
+				oneCall := oneCall
+				r.DFS(fmt.Sprintf("batch2/signed=%v/model=%d/onecall=%v", signed, mi, oneCall), -1, func(x *vexp.X) vexp.Result {
+					a, b := x.Choose(nrec), x.Choose(nrec)
+					return v13Batch(x, []*v13Run{{sh: sh34, signed: signed, data: mkData(a), m: m}, {sh: sh34, signed: signed, data: mkData(b), m: m}}, oneCall)
+				})
+				if !thorough {
+					continue
+				}
+				r.DFS(fmt.Sprintf("batch3/signed=%v/model=%d/onecall=%v", signed, mi, oneCall), -1, func(x *vexp.X) vexp.Result {
+					// three records over {0,1,ffff}
+					pick := func() []RawType {
+						d := make([]RawType, 4)
+						for k := range d {
+							d[k] = []RawType{0, 1, 0xffff}[x.Choose(3)]
+						}
+						return d
+					}
+					qs := []*v13Run{{sh: sh34, signed: signed, data: pick(), m: m}, {sh: sh34, signed: signed, data: pick(), m: m}, {sh: sh34, signed: signed, data: pick(), m: m}}
+					return v13Batch(x, qs, oneCall)
+				})
+			}
+		}
+	}
+
 	for _, signed := range []bool{false, true} {
 		signed := signed
 		for mi, m := range offModels {
